@@ -193,6 +193,12 @@ func c08Run(r *core.Run) {
 	level := []int{6, 1, 9, 0}[t.Int(4, "c08.level")]
 	enc := world.Present(xml, compress, level)
 
+	switch t.Int(6, "c08.ambient") {
+	case 1:
+		s.NeighbourNoise(enc)
+	case 2:
+		s.WarmUpThenReconfigure(enc)
+	}
 	resp, out := s.Node.ValidateResponse(enc)
 	r.Steps++
 	r.Logf("sp validate -> %s %s", out.Class(), world.ErrClass(out.Err))
